@@ -58,7 +58,8 @@ def worker(job):
     elif op == "to_images":
         res = attempt(lambda: m.to_images())
     elif op == "get_component":
-        res = attempt(lambda: m.get_component(param[0], param[1]) if nl == 1 else m.batch_get_component(param[0], param[1]))
+        carg = slice(param[0][0], param[0][1]) if isinstance(param[0], (list, tuple)) else param[0]
+        res = attempt(lambda: m.get_component(carg, param[1]) if nl == 1 else m.batch_get_component(carg, param[1]))
     if isinstance(res, Rejected):
         ok_reject = (op == "norm" and nl == 0) or (op == "get_component" and nl not in (1, 2))
         if not ok_reject:
@@ -120,19 +121,22 @@ def worker(job):
         if got is None:
             problems.append(("keys", "get_component does not return a single scalar block", None))
         elif nl == 1:
-            exp = A.stack([plane(blocks, cols[comp], ts) for ts in range(steps)], 0)
+            # a slice selects several components: the result is again a (component x time step) block, component-major
+            # like every (channel x time step) axis of the library
+            sel = cols[comp[0]:comp[1]] if isinstance(comp, (list, tuple)) else [cols[comp]]
+            exp = A.stack([plane(blocks, col, ts) for col in sel for ts in range(steps)], 0)
             if got.shape != exp.shape or not same_elems(got, exp):
-                problems.append(("component", "get_component(%d, future_steps=%d) is not component %s (type, channel, tensor index) of the image at each time step: %s" % (comp, steps, cols[comp], first_diff(got, exp) if got.shape == exp.shape else "shape %r vs %r" % (got.shape, exp.shape)), site_of(got)))
+                problems.append(("component", "get_component(%s, future_steps=%d) is not component(s) %s (type, channel, tensor index) of the image at each time step, component-major: %s" % (comp, steps, sel, first_diff(got, exp) if got.shape == exp.shape else "shape %r vs %r" % (got.shape, exp.shape)), site_of(got)))
         else:
             # batched: entry b must be what the single-image operation returns for entry b
             for bi in range(lead[0]):
                 single = make_multi(it, types, {t: blocks[t][bi] for t in types}, D, flags)
-                exp = attempt(lambda: single.get_component(comp, steps))
+                exp = attempt(lambda: single.get_component(carg, steps))
                 if isinstance(exp, Rejected):
                     problems.append(("rejected", "get_component rejected the single image: %s" % exp.exc, None))
                     break
                 if got[bi].shape != exp[(0, 0)].shape or not same_elems(got[bi], exp[(0, 0)]):
-                    problems.append(("per-image", "batch_get_component(%d)[%d] is not get_component(%d) of batch entry %d: %s" % (comp, bi, comp, bi, first_diff(got[bi], exp[(0, 0)]) if got[bi].shape == exp[(0, 0)].shape else "shape %r vs %r" % (got[bi].shape, exp[(0, 0)].shape)), site_of(got)))
+                    problems.append(("per-image", "batch_get_component(%s)[%d] is not get_component(%s) of batch entry %d: %s" % (comp, bi, comp, bi, first_diff(got[bi], exp[(0, 0)]) if got[bi].shape == exp[(0, 0)].shape else "shape %r vs %r" % (got[bi].shape, exp[(0, 0)].shape)), site_of(got)))
                     break
     return dict(cfg=cfg, problems=problems)
 
@@ -208,6 +212,9 @@ def run(ctx):
                         ncomp = sum((2 // steps) * D ** t[0] for t in ts)
                         for comp in range(ncomp) if (ctx.thorough() or steps == 1) else sorted({0, ncomp - 1, ncomp // 2}):
                             jobs.append((ctx.repo, "get_component", D, ts, nl, [comp, steps]))
+                        if ncomp >= 2:
+                            jobs.append((ctx.repo, "get_component", D, ts, nl, [[0, 2], steps]))
+                            jobs.append((ctx.repo, "get_component", D, ts, nl, [[ncomp - 2, ncomp], steps]))
     by = {}
     for job, r in ctx.pairs(worker, jobs):
         cfg = r["cfg"]
